@@ -8,7 +8,7 @@ EXTENDS RebalanceProps, TLC, Json, IOUtils, SequencesExt
 
 Pairs == ndJsonDeserialize("pairs.ndjson")
 Idx   == DOMAIN Pairs
-PropIds == {"C01", "C03", "C04", "C05", "C07", "C08"}
+PropIds == {"C01", "C03", "C04", "C05", "C07", "C08", "C20"}
 
 Viol ==
   UNION { LET a == All(Pairs[k].in, Pairs[k].out)
@@ -23,6 +23,7 @@ NT(p, i, o) ==
     [] p = "C05" -> C05_NonTrivial(i, o)
     [] p = "C07" -> Len(o.scales) > 0
     [] p = "C08" -> C08_NonTrivial(i, o)
+    [] p = "C20" -> \E k \in Sh(i) : New(i, o, k) \cap UnscrapedHealthy(i) # {}
 NonTrivial == [p \in PropIds |-> Cardinality({Pairs[k].id : k \in {k \in Idx : NT(p, Pairs[k].in, Pairs[k].out)}})]
 
 ASSUME ndJsonSerialize("viol.ndjson", SetToSeq(Viol))
